@@ -1701,6 +1701,12 @@ func (x *Exec) lockOp(fr *Frame, st *State, op string, mu SVal, pos token.Pos) {
 			}
 		}
 	}
+	if op == "Lock" || op == "RLock" {
+		// atlock(e): the value of e right after the most recent acquisition on this path (after the interference havoc)
+		snap := st.Clone()
+		snap.lockSnap = nil
+		st.lockSnap = snap
+	}
 	st.events = append(st.events, "lock:"+op)
 }
 
